@@ -211,3 +211,55 @@ Theorem C11_nonvacuous :
      reqh P ≤ hgt U a ∧ listed U X P n (MSync p a hs rem0 rs)).
 Proof. exact nonvacuous. Qed.
 Print Assumptions C11_nonvacuous.
+
+(** 5. The batch-acceptance rule of workFn (parallel_sync.go:66-70, 84-95): a request that is
+    accepted handed the manager exactly the blocks of the header chunk it was asked for: the
+    submitted terms carry the chunk's ids, and on the instant path (validated, hence canonical,
+    terms) they are the chunk itself.  Needed: [WFX]; the chunk passed SendHeaders' checks; on the
+    instant path the base is a fully valid block at or above the require height (maintained
+    along every uniform round, see [do_requests_safe]).  [WF], [GRoot], [0 < reqh P] are not
+    needed. *)
+Theorem C11_accepted_batch_is_header_chunk :
+  ∀ U X P m base bh hj r m' acts,
+    WFX U X P →
+    headers_ok U X base hj = true →
+    (reqh P ≤ bh → ∃ B, U !! base = Some B ∧ hdr_ok B = true ∧ body_ok B = true ∧
+                        reqh P ≤ height B) →
+    do_request U X P true m base bh hj r = (m', RNext, acts) →
+    ∃ v bs, acts = [Submit v bs Ok] ∧ map (λ t, hid (xget X t)) bs = hj ∧ (v = true → bs = hj).
+Proof. exact accepted_batch_is_header_chunk. Qed.
+Print Assumptions C11_accepted_batch_is_header_chunk.
+
+(** its hypotheses are met by an accepted two-block request in both paths *)
+Theorem C11_accepted_batch_nonvacuous :
+  (∃ U X P m base bh hj r m' acts,
+     WFX U X P ∧ headers_ok U X base hj = true ∧
+     (reqh P ≤ bh → ∃ B, U !! base = Some B ∧ hdr_ok B = true ∧ body_ok B = true ∧
+                         reqh P ≤ height B) ∧
+     reqh P ≤ bh ∧ (1 < length hj)%nat ∧
+     do_request U X P true m base bh hj r = (m', RNext, acts)) ∧
+  (∃ U X P m base bh hj r m' acts,
+     WFX U X P ∧ headers_ok U X base hj = true ∧
+     (reqh P ≤ bh → ∃ B, U !! base = Some B ∧ hdr_ok B = true ∧ body_ok B = true ∧
+                         reqh P ≤ height B) ∧
+     bh < reqh P ∧ (1 < length hj)%nat ∧
+     do_request U X P true m base bh hj r = (m', RNext, acts)).
+Proof. exact accepted_batch_nonvacuous. Qed.
+Print Assumptions C11_accepted_batch_nonvacuous.
+
+(** 5'. With the last-id comparison (parallel_sync.go:68) replaced by "the first block attaches
+    to the base" ([do_request_attach], Net/SyncProofs.v) this fails: a valid sibling chain of the
+    right length is accepted for a header chunk it does not equal; the real rule refuses the
+    same answer. *)
+Theorem C11_attach_only_rule_refuted :
+  ∃ U X P m base bh hj r m' bs,
+    WF U ∧ WFX U X P ∧ GRoot U ∧ 0 < reqh P ∧ MInv U m ∧ all_body m ∧
+    headers_ok U X base hj = true ∧
+    (∃ B, U !! base = Some B ∧ hdr_ok B = true ∧ body_ok B = true ∧ reqh P ≤ height B) ∧
+    reqh P ≤ bh ∧
+    do_request_attach U X P true m base bh hj r = (m', RNext, [Submit true bs Ok]) ∧
+    validated_pre U bs ∧
+    map (λ t, hid (xget X t)) bs ≠ hj ∧
+    do_request U X P true m base bh hj r = (m, RFail, []).
+Proof. exact attach_only_rule_refuted. Qed.
+Print Assumptions C11_attach_only_rule_refuted.
